@@ -62,6 +62,24 @@ def demo_case(name, start=None, end=None):
 NEGATIVES = [(1 << 64) - 1, (1 << 64) - 2, (1 << 64) - 9, (1 << 32) - 1, (1 << 32) - 2, 1 << 31, 1 << 63, (1 << 31) - 1]
 
 
+def ambient_answer(case):
+    """One case of the ambient section (tools/kdv/ambient.py): the text a decoder renders for a window."""
+    return run(case)
+
+
+def ambient_section(rep, rng, tier):
+    from .. import ambient
+    names = D.all_handler_names()
+    pick = names if tier != 'quick' else rng.sample(names, 120)
+    cases = []
+    for i, n in enumerate(pick):
+        c = D.make_case(rng, n)
+        if i % 4 == 3:
+            c['end'] = [rng.choice(NEGATIVES)] + list(c['end'][1:])
+        cases.append(c)
+    ambient.section(rep, rng, tier, 'C18', 'kdv.props.C18:ambient_answer', cases)
+
+
 def correspondence(rep, rng, tier):
     D.section_decoders(rep, rng, tier, per=2 if tier == 'quick' else 30, name='decoders', syntax=2 if tier == 'quick' else 40)
     ht = host_tables()
@@ -96,6 +114,7 @@ def correspondence(rep, rng, tier):
                             {'section': 'host-vs-darwin', 'case': c, 'table': tname, 'code': code})
     darwin_names(rep)
     scramble_search(rep, rng, tier)
+    ambient_section(rep, rng, tier)      # the host is also the process environment: terminal, locale, time zone, hash seed
     if rep.broken or tier == 'thorough':       # the theorems rule a new dependence out; search only when they no longer check
         targeted_search(rep, diffs, tier, ht)
         if rep.broken and not any(f['signature'].startswith('host:new-dependence') for f in rep.failures):
@@ -361,6 +380,13 @@ def replay(path):
     if r['replay'].get('section', '').startswith('decoders-history'):
         from .. import neighbours
         bad, lines = neighbours.replay(r['replay'])
+        print('\n'.join(lines))
+        if bad:
+            print(f'VIOLATION property=C18 replay={path}')
+        return 1 if bad else 0
+    if r['replay'].get('section') == 'ambient':
+        from .. import ambient
+        bad, lines = ambient.replay(r['replay'])
         print('\n'.join(lines))
         if bad:
             print(f'VIOLATION property=C18 replay={path}')
